@@ -493,10 +493,14 @@ func genDeep(id int) *caseRec {
 	for _, v := range enc.SortedKeys(in.sigma) {
 		t := enc.VarTok(v).(T)
 		if t[1] == "ineq" && rng.Intn(4) == 0 {
-			if rng.Intn(2) == 0 {
+			switch rng.Intn(3) {
+			case 0:
 				bs[t[3].(string)] = in.sigma[v]
-			} else {
+			case 1:
 				bs[t[3].(string)] = float64(rng.Intn(6))
+			default:
+				// a counterpart that is not a number at all: it cannot be the number at hand
+				bs[t[3].(string)] = []interface{}{"lots", "lots", true, map[string]interface{}{"n": in.sigma[v]}}[rng.Intn(4)]
 			}
 		}
 	}
